@@ -801,7 +801,7 @@ emitTheIncluded(EmitInfo finfo, SrcLineList sll)
 	emitInfoInUse(finfo, FTYPENO_INCLUDED) = true;
 	fout = fileWrOpen(fn);
 	inclWrite(fout, sll);
-	fclose(fout);
+	fileClose(fout, fn);
 	emitInfoInUse(finfo, FTYPENO_INCLUDED) = false;
 	emitSetDone(FTYPENO_INCLUDED);
 }
@@ -819,7 +819,7 @@ emitTheAbSyn(EmitInfo finfo, AbSyn absyn)
 	emitInfoInUse(finfo, FTYPENO_ABSYN) = true;
 	fout = fileWrOpen(fn);
 	abWrSExpr(fout, absyn, emitSxIoMode);
-	fclose(fout);
+	fileClose(fout, fn);
 	emitInfoInUse(finfo, FTYPENO_ABSYN) = false;
 	emitSetDone(FTYPENO_ABSYN);
 }
@@ -837,7 +837,7 @@ emitTheOldAbSyn(EmitInfo finfo, AbSyn absyn)
 	emitInfoInUse(finfo, FTYPENO_OLDABSYN) = true;
 	fout = fileWrOpen(fn);
 	abWrSExpr(fout, absyn, emitSxIoMode);
-	fclose(fout);
+	fileClose(fout, fn);
 	emitInfoInUse(finfo, FTYPENO_OLDABSYN) = false;
 	emitSetDone(FTYPENO_OLDABSYN);
 }
@@ -940,7 +940,7 @@ emitTheSymbolExpr(EmitInfo finfo, SymeList symes, AbSyn macs)
 	listFree(AbSyn)(tu->typesOther);
 	stoFree(tu);
 #endif
-	fclose(fout);
+	fileClose(fout, fn);
 	emitInfoInUse(finfo, FTYPENO_SYMEEXPR) = false;
 	emitSetDone(FTYPENO_SYMEEXPR);
 }
@@ -959,7 +959,7 @@ emitTheAnnotatedAbSyn(EmitInfo finfo, SExpr whole)
 	fout = fileWrOpen(fn);
 	sxiWrite(fout, whole, SXRW_Default);
 
-	fclose(fout);
+	fileClose(fout, fn);
 	emitInfoInUse(finfo, FTYPENO_ANNABS) = false;
 	emitSetDone(FTYPENO_ANNABS);
 }
@@ -978,7 +978,7 @@ emitTheFoamExpr(EmitInfo finfo, Foam foam)
 	emitInfoInUse(finfo, FTYPENO_FOAMEXPR) = true;
 	fout = fileWrOpen(fn);
 	foamWrSExpr(fout, foam, emitSxIoMode);
-	fclose(fout);
+	fileClose(fout, fn);
 	emitInfoInUse(finfo, FTYPENO_FOAMEXPR) = false;
 	emitSetDone(FTYPENO_FOAMEXPR);
 }
@@ -1017,7 +1017,7 @@ emitTheLisp(EmitInfo finfo, SExpr lispCode)
 		fprintf(fout, "\n");
 		sxiWrite(fout, sxCar(lispCode), glWriteMode | emitSxIoMode);
 	}
-	fclose(fout);
+	fileClose(fout, fn);
 	emitInfoInUse(finfo, FTYPENO_LISP) = false;
 	emitSetDone(FTYPENO_LISP);
 }
@@ -1109,7 +1109,7 @@ emitTheC(EmitInfo finfo, CCodeList cco)
 					fprintf(fout, "\n#include \"%s\"",
 						fnameUnparseStatic(hfn));
 				ccoPrint(fout, car(cco), ccmode);
-				fclose(fout);
+				fileClose(fout, (i == 1 || !hout) ? fn : fname);
 			}
 		}
 		else
@@ -1119,7 +1119,7 @@ emitTheC(EmitInfo finfo, CCodeList cco)
 	emitInfoInUse(finfo, FTYPENO_C) = false;
 	emitSetDone(FTYPENO_LISP);
 	if (hout) {
-		fclose(hout);
+		fileClose(hout, hfn);
 		emitInfoInUse(finfo, FTYPENO_H) = false;
 		emitSetDone(FTYPENO_H);
 	}
@@ -1211,7 +1211,7 @@ emitOneJavaFile(EmitInfo finfo, JavaCode javaFile)
 	jcoWrite(ctxt, javaFile);
 	jcoPContextFree(ctxt);
 	ostreamClose(ostream);
-	fclose(fout);
+	fileClose(fout, fn);
 }
 
 local FileName
